@@ -20,6 +20,14 @@ META = {
     "functions": ["gfapy/field/byte_array.decode", "numeric_array.decode", "float.decode", "json.decode", "ByteArray.__new__", "NumericArray.from_string"],
     "bounds": "H, B, f, J: every string of length <= 2 (quick) / <= 3 (thorough) over a per-datatype alphabet of up to 16 characters (hex digits upper/lower case, subtype letters, signs, digits around the range limits, '.', exponent, 'inf'/'nan' letters, JSON punctuation), indices chosen by the solver",
     "timeout": {"quick": 300, "thorough": 1800}, "parts": {"quick": 16, "thorough": 16}},
+  "h_path_overlaps": {"kind": "L",
+    "functions": ["gfapy.line.group.path.validation.Validation._validate_lists_size", "Line.__init__", "Gfa.__init__/validate", "path References._compute_required_links"],
+    "bounds": "P lines with 1..4 segments and 1..5 overlaps (all CIGARs, or all '*', or a single '*'), as a line and inside a Gfa that defines the segments and links, vlevel 1..3: accepted iff the overlap list is a single '*', or has one entry per junction (n-1), or one per junction of a circular path (n)",
+    "timeout": {"quick": 300, "thorough": 600}, "parts": {"quick": 8, "thorough": 8}},
+  "h_b_bounds": {"kind": "K",
+    "functions": ["gfapy.field.numeric_array.decode/validate_encoded", "NumericArray.from_string (range check)", "NumericArray.validate/compute_subtype"],
+    "bounds": "B strings '<subtype>,<v>' and '<subtype>,0,<v>' for every integer subtype letter and v = bound + d for every bound in {0, 127, 128, 255, 256, 32767, 32768, 65535, 65536, 2^31-1, 2^31, 2^32-1, 2^32, -1, -128, -129, -32768, -32769, -2^31, -2^31-1}, d in -1..1: decoded iff v lies in the range of the declared subtype",
+    "timeout": {"quick": 300, "thorough": 600}, "parts": {"quick": 8, "thorough": 8}},
   "h_record_rules": {"kind": "L",
     "functions": ["Construction.__init__/_initialize_positional_fields/_initialize_tags/_initialize_tag", "Validate._validate_record_type_specific_info",
                   "segment LengthGFA1.validate_length", "path Validation", "edge gfa2 Validation.validate_positions", "fragment Validation", "Line.validate/validate_field"],
@@ -181,4 +189,69 @@ def _record_ok(key, fields, k, n, tags, allf=None):
     pre = PREDEF[key]
     if nm in pre and pre[nm] != dt: return False   # predefined tags with their prescribed type
     if key == "S1" and nm == "LN" and pos[1] != "*" and int(val) != len(pos[1]): return False
+  return True
+
+
+# ---------------------------------------------------------------------------
+def h_path_overlaps(nseg: int, nov: int, kind: int, vl: int, ingfa: bool) -> bool:
+  """
+  pre: 1 <= nseg <= 4 and 1 <= nov <= 5 and 0 <= kind <= 2 and 1 <= vl <= 3
+  pre: (nseg + 4 * kind) % NPART == PART
+  post: _ == True
+  """
+  vp.enter("po")
+  ns = vp.concretize(nseg, 1, 4); no = vp.concretize(nov, 1, 5); k = vp.concretize(kind, 0, 2)
+  level = vp.concretize(vl, 1, 3)
+  segs = ["a", "b", "c", "d"][:ns]
+  ov = ["1M", "*", "2M"][k]
+  text = "P\tp\t" + ",".join(x + "+" for x in segs) + "\t" + ",".join([ov] * no)
+  want = (ov == "*" and no == 1) or no == ns - 1 or (no == ns and ns > 1)
+  if ns == 1 and no == 1:
+    want = True                                   # one segment, one overlap: '*' or the circular reading
+  vp.reached("po", ns, no, ov, level, ingfa)
+  if not ingfa:
+    try:
+      l = gfapy.Line(text, vlevel=level, version="gfa1")
+      l.validate()
+      return want
+    except gfapy.Error:
+      return not want
+  doc = ["S\t" + x + "\t*" for x in segs] + \
+        ["L\t" + segs[i] + "\t+\t" + segs[(i + 1) % ns] + "\t+\t" + ov for i in range(ns if ns > 1 else 0)]
+  try:
+    g = gfapy.Gfa(doc + [text], vlevel=level)
+    g.validate()
+    return want
+  except gfapy.Error:
+    return not want
+
+B_BOUNDS = [0, 127, 128, 255, 256, 32767, 32768, 65535, 65536, 2**31 - 1, 2**31, 2**32 - 1, 2**32,
+            -1, -128, -129, -32768, -32769, -2**31, -2**31 - 1]
+B_RANGE = {"c": (-128, 127), "C": (0, 255), "s": (-32768, 32767), "S": (0, 65535), "i": (-2**31, 2**31 - 1), "I": (0, 2**32 - 1)}
+B_TYPES = ["c", "C", "s", "S", "i", "I"]
+
+def h_b_bounds(ti: int, bi: int, d: int, two: bool) -> bool:
+  """
+  pre: 0 <= ti < 6 and 0 <= bi < 20 and -1 <= d <= 1
+  pre: (ti + bi) % NPART == PART
+  post: _ == True
+  """
+  vp.enter("bb")
+  st = B_TYPES[vp.concretize(ti, 0, 5)]
+  v = B_BOUNDS[vp.concretize(bi, 0, 19)] + vp.concretize(d, -1, 1)
+  with NoTracing():
+    s = st + "," + ("0," if two else "") + str(v)
+  lo, hi = B_RANGE[st]
+  want = lo <= v <= hi and not (st in "CSI" and v < 0)
+  real = _real_accepts("B", s)
+  vp.reached("bb", s, real)
+  if real != want: return False
+  if real:
+    # what is accepted also validates, and is written with a subtype that holds the value
+    with NoTracing():
+      l = gfapy.Line("S\ta\t*\txx:B:" + s, vlevel=1)
+    l.validate()
+    w = l.field_to_s("xx")
+    wl, wh = B_RANGE[w[0]]
+    return wl <= v <= wh
   return True
